@@ -5,7 +5,8 @@ PROP = 'C16'
 REPLAYERS = {q: 'replayers/queue_ops.py' for q in (
     'queues.Queue.put', 'queues.Queue.get', 'queues.JoinableQueue.put', 'queues.JoinableQueue.task_done',
     'queues.JoinableQueue.join', 'queues.Queue._feed', 'queues.SimpleQueue.get_payload',
-    'queues.SimpleQueue.send_payload', 'queues._SimpleQueue.get', 'queues._SimpleQueue.put')}
+    'queues.SimpleQueue.send_payload', 'queues._SimpleQueue.get', 'queues._SimpleQueue.put',
+    'queues.Queue._finalize_close')}
 
 ASSUMPTIONS = [
     'the capacity semaphore / locks / condition are the C SemLock wrappers (C17): acquire(block, timeout) returns False only '
@@ -269,6 +270,11 @@ def build(w):
         gset(ex, 'closed', mk_bool(True))          # close()
         return SNone()
     w.global_overrides['queues._sentinel'] = lambda ex: SV(ValS, z3.Const('the_sentinel', Val))
+    w.spec_funcs['the_sentinel'] = lambda ex: SV(ValS, z3.Const('the_sentinel', Val))
+
+    def ext_fnotify(ex, args, kw):
+        gset(ex, 'notified', SV(IntS, gget(ex, 'notified').e + 1))
+        return SNone()
     in_step = 'all(implies(0 <= k and k < len(buffer), at(buffer, k) == g.total[g.popped + k]) for k in ints())'
     sent_in_order = 'all(implies(0 <= k and k < g.n_sent, g.sent[k] == pickled(g.total[k])) for k in ints())'
     w.spec_funcs['pickled'] = lambda ex, v: SV(ValS, pickled(v.e))
@@ -295,8 +301,22 @@ def build(w):
                  },
         raises={},
     )
+    # the stop request of close(): the feeder stops at the sentinel, so the sentinel must come *after* everything that was
+    # put before the close -- appended at the tail, nothing before it touched, and the feeder told
+    fin_close = Contract(
+        'queues.Queue._finalize_close', prop=PROP, params={'buffer': list_of(ValS), 'notempty': ValS},
+        externals={'queues.debug': lambda ex, a, k: SNone(), '<opaque>.notify': ext_fnotify,
+                   '<opaque>.with_enter': lambda ex, a, k: SNone(), '<opaque>.with_exit': lambda ex, a, k: SNone()},
+        requires={'buffer': 'allocated(buffer) and len(buffer) >= 0 and g.notified == 0'},
+        modifies=['buffer.*', 'g.notified'],
+        ensures={'stop_request_queued_behind_everything_put_before_the_close':
+                     'len(buffer) == old(len(buffer)) + 1 and at(buffer, len(buffer) - 1) == the_sentinel()',
+                 'objects_put_before_the_close_keep_their_places': 'all(implies(0 <= k and k < old(len(buffer)), '
+                                                                   'at(buffer, k) == old(at(buffer, k))) for k in ints())',
+                 'the_feeder_is_told': 'g.notified == 1'},
+    )
     import c16_simple
-    return [put, get, jput, task_done, join, feed] + c16_simple.simple_queue_contracts(w, PROP, pickled)
+    return [put, get, jput, task_done, join, feed, fin_close] + c16_simple.simple_queue_contracts(w, PROP, pickled)
 
 
 MANIFEST_ENTRY = {
@@ -308,7 +328,8 @@ MANIFEST_ENTRY = {
             'all three modes, receives exactly one message and gives exactly one place back, raises Empty without receiving '
             'anything and not before its timeout, and always releases the reader lock; the feeder thread (Queue._feed, two '
             'nested loops with invariants over a prophecy of what other threads append) writes what was buffered first to the '
-            'pipe first, each item exactly once, until the sentinel; JoinableQueue.put counts one unfinished task exactly when '
+            'pipe first, each item exactly once, until the sentinel; close()\'s stop request (_finalize_close) queues the sentinel '
+            'behind everything buffered before it and wakes the feeder; JoinableQueue.put counts one unfinished task exactly when '
             'it buffers, task_done() takes one off, raises ValueError at zero and wakes the waiters exactly when the count '
             'reaches zero, join() waits exactly when tasks are unfinished.  SimpleQueue (the pool\'s own task and result '
             'queues): get_payload reads one whole message with the reader lock held, send_payload writes one with the writer '
